@@ -26,6 +26,13 @@ pub struct Params {
     pub apr: String,
     pub unbonding: u64,
     pub commissions: Vec<String>,
+    /// the bonded denomination (staking parameter, fixed at setup)
+    #[serde(default = "default_denom")]
+    pub denom: String,
+}
+
+fn default_denom() -> String {
+    DENOM.to_string()
 }
 
 #[derive(Clone, Debug, Serialize, Deserialize)]
@@ -77,6 +84,7 @@ pub struct Inst {
     pub operator: String,        // the user who drives the relay contract
     pub noise: String,           // unrelated delegator used only by the split-time twin
     pub validators: Vec<String>,
+    pub denom: String,
 }
 
 pub fn validators(p: &Params) -> Vec<String> {
@@ -94,7 +102,7 @@ impl Inst {
         app.init_modules(|router, api, storage| {
             router
                 .staking
-                .setup(storage, StakingInfo { bonded_denom: DENOM.to_string(), unbonding_time: p.unbonding, apr: Decimal::from_str(&p.apr).unwrap() })
+                .setup(storage, StakingInfo { bonded_denom: p.denom.clone(), unbonding_time: p.unbonding, apr: Decimal::from_str(&p.apr).unwrap() })
                 .unwrap();
             for (i, c) in p.commissions.iter().enumerate() {
                 let v = Validator::create(format!("validator{}", i), Decimal::from_str(c).unwrap(), Decimal::percent(100), Decimal::percent(1));
@@ -108,11 +116,11 @@ impl Inst {
         let relay = app.instantiate_contract(code, Addr::unchecked(operator.clone()), &Empty {}, &[], "relay", None).unwrap().to_string();
         let delegators = vec![u0, u1, relay];
         for d in &delegators {
-            app.sudo(SudoMsg::Bank(BankSudo::Mint { to_address: d.clone(), amount: vec![coin(START_BALANCE, DENOM), coin(1000, "ux")] })).unwrap();
+            app.sudo(SudoMsg::Bank(BankSudo::Mint { to_address: d.clone(), amount: vec![coin(START_BALANCE, p.denom.clone()), coin(1000, "ux")] })).unwrap();
         }
         let noise = "noise-delegator".into_addr().to_string();
-        app.sudo(SudoMsg::Bank(BankSudo::Mint { to_address: noise.clone(), amount: vec![coin(START_BALANCE, DENOM)] })).unwrap();
-        Inst { app, delegators, operator, noise, validators: validators(p) }
+        app.sudo(SudoMsg::Bank(BankSudo::Mint { to_address: noise.clone(), amount: vec![coin(START_BALANCE, p.denom.clone())] })).unwrap();
+        Inst { app, delegators, operator, noise, validators: validators(p), denom: p.denom.clone() }
     }
 
     fn exec_as(&mut self, d: usize, msg: CosmosMsg) -> Result<(), String> {
@@ -162,8 +170,8 @@ impl Inst {
                             // an unrelated delegator stakes one token and takes it out again at once: this forces
                             // reward updates at this instant and leaves no stake behind
                             for v in &vals {
-                                let _ = self.app.execute(Addr::unchecked(self.noise.clone()), StakingMsg::Delegate { validator: v.clone(), amount: coin(1, DENOM) }.into());
-                                let _ = self.app.execute(Addr::unchecked(self.noise.clone()), StakingMsg::Undelegate { validator: v.clone(), amount: coin(1, DENOM) }.into());
+                                let _ = self.app.execute(Addr::unchecked(self.noise.clone()), StakingMsg::Delegate { validator: v.clone(), amount: coin(1, self.denom.clone()) }.into());
+                                let _ = self.app.execute(Addr::unchecked(self.noise.clone()), StakingMsg::Undelegate { validator: v.clone(), amount: coin(1, self.denom.clone()) }.into());
                             }
                         }
                     }
@@ -185,7 +193,7 @@ impl Inst {
             self.app.wrap().query(&QueryRequest::Staking(StakingQuery::Delegation { delegator: self.delegators[d].clone(), validator: v.to_string() }));
         match r {
             Ok(resp) => Ok(resp.delegation.map(|f| {
-                let pending: u128 = f.accumulated_rewards.iter().filter(|c| c.denom == DENOM).map(|c| c.amount.u128()).sum();
+                let pending: u128 = f.accumulated_rewards.iter().filter(|c| c.denom == self.denom).map(|c| c.amount.u128()).sum();
                 (f.amount.amount.u128(), pending)
             })),
             Err(e) => Err(e.to_string()),
@@ -330,15 +338,16 @@ pub struct Model {
     pub unbonding: u64,
     pub delegators: Vec<String>,
     pub any_slash: bool,
+    pub denom: String,
 }
 
 impl Model {
     pub fn new(p: &Params, inst: &Inst) -> Model {
         let mut ledger = Ledger::default();
         for d in &inst.delegators {
-            ledger.mint(d, &vec![(DENOM.to_string(), START_BALANCE), ("ux".to_string(), 1000)]);
+            ledger.mint(d, &vec![(p.denom.clone(), START_BALANCE), ("ux".to_string(), 1000)]);
         }
-        ledger.mint(&inst.noise, &vec![(DENOM.to_string(), START_BALANCE)]);
+        ledger.mint(&inst.noise, &vec![(p.denom.clone(), START_BALANCE)]);
         let vals = validators(p);
         let mut commission = BTreeMap::new();
         for (i, c) in p.commissions.iter().enumerate() {
@@ -360,6 +369,7 @@ impl Model {
             unbonding: p.unbonding,
             delegators: inst.delegators.clone(),
             any_slash: false,
+            denom: p.denom.clone(),
         }
     }
     pub fn shown(&self, d: usize, v: &str) -> u128 {
@@ -441,13 +451,14 @@ impl Run {
 
         // ---- expectation from the model ------------------------------------------------------
         let mut m = self.model.clone();
+        let bd = m.denom.clone();
         let known = |v: &str| vals.iter().any(|x| x == v);
         let (kind, expect): (&str, Expect) = match op {
             SOp::Delegate { d, v, amount, denom } => {
-                let ok = *amount > 0 && denom == DENOM && known(v) && m.ledger.bal(&m.delegators[*d], DENOM) >= *amount;
+                let ok = *amount > 0 && *denom == bd && known(v) && m.ledger.bal(&m.delegators[*d], &bd) >= *amount;
                 if ok {
                     let who = m.delegators[*d].clone();
-                    m.ledger.send(&who, POOL, &vec![(DENOM.to_string(), *amount)]);
+                    m.ledger.send(&who, POOL, &vec![(bd.clone(), *amount)]);
                     let p = m.pair(*d, v);
                     p.lo += *amount;
                     p.hi = p.hi.clone() + Q::int(*amount);
@@ -455,7 +466,7 @@ impl Run {
                 ("delegate", if ok { Expect::MustOk } else { Expect::MustErr })
             }
             SOp::Undelegate { d, v, amount, denom } => {
-                let valid = *amount > 0 && denom == DENOM && known(v) && m.shown(*d, v) >= *amount;
+                let valid = *amount > 0 && *denom == bd && known(v) && m.shown(*d, v) >= *amount;
                 let e = if !valid {
                     Expect::MustErr
                 } else if m.slashed.contains(v) {
@@ -474,7 +485,7 @@ impl Run {
                 ("undelegate", e)
             }
             SOp::Redelegate { d, src, dst, amount, denom } => {
-                let valid = denom == DENOM && known(src) && known(dst) && m.shown(*d, src) >= *amount;
+                let valid = *denom == bd && known(src) && known(dst) && m.shown(*d, src) >= *amount;
                 let e = if *amount == 0 || (valid && src == dst) {
                     // zero amounts and redelegating to the same validator are not specified by the
                     // property: either outcome, but no visible effect (and the reward period goes on)
@@ -542,7 +553,7 @@ impl Run {
                         let u = m.queue.pop_front().unwrap();
                         if u.amount > 0 {
                             let who = m.delegators[u.d].clone();
-                            m.ledger.send(POOL, &who, &vec![(DENOM.to_string(), u.amount)]);
+                            m.ledger.send(POOL, &who, &vec![(bd.clone(), u.amount)]);
                         }
                         rep.bump(if u.slashed_while_pending { "stk/unbonding_paid/slashed_while_pending" } else { "stk/unbonding_paid/unslashed" });
                     } else {
@@ -638,11 +649,11 @@ impl Run {
                     // no delegation was shown (sub-token dust entry): the property does not say what is paid;
                     // take the observed amount so that the ledger comparison stays exact for everything else
                     rep.bump("stk/observation/withdraw_ok_without_shown_delegation");
-                    let lb = rawstate::bank_ledger(&raw_before).ok().and_then(|l| l.get(&to).and_then(|x| x.get(DENOM).copied())).unwrap_or(0);
-                    let la = rawstate::bank_ledger(&raw_after).ok().and_then(|l| l.get(&to).and_then(|x| x.get(DENOM).copied())).unwrap_or(0);
+                    let lb = rawstate::bank_ledger(&raw_before).ok().and_then(|l| l.get(&to).and_then(|x| x.get(bd.as_str()).copied())).unwrap_or(0);
+                    let la = rawstate::bank_ledger(&raw_after).ok().and_then(|l| l.get(&to).and_then(|x| x.get(bd.as_str()).copied())).unwrap_or(0);
                     la.saturating_sub(lb)
                 };
-                m.ledger.mint(&to, &vec![(DENOM.to_string(), paid)]);
+                m.ledger.mint(&to, &vec![(bd.clone(), paid)]);
                 if before[&(*d, v.clone())].is_some() {
                     rep.bump("stk/withdraw_ok_with_shown_delegation");
                 }
@@ -963,7 +974,8 @@ pub fn gen_params(rng: &mut Rng) -> Params {
     let n = rng.range(2, 3) as usize;
     let pool = ["0", "0.1", "0.33", "0.05", "1", "0.5"];
     let commissions = (0..n).map(|_| rng.pick(&pool).to_string()).collect();
-    Params { apr, unbonding, commissions }
+    let denom = rng.pick(&["TOKEN", "TOKEN", "ustake"]).to_string();
+    Params { apr, unbonding, commissions, denom }
 }
 
 fn gen_amount(rng: &mut Rng, reference: u128) -> u128 {
@@ -1003,7 +1015,7 @@ pub fn gen_op(rng: &mut Rng, m: &Model, mix: Mix) -> SOp {
         }
         r -= w;
     }
-    let denom = if rng.chance(1, 25) { "ux".to_string() } else { DENOM.to_string() };
+    let denom = if rng.chance(1, 25) { "ux".to_string() } else { m.denom.clone() };
     let maybe_unknown = |rng: &mut Rng, v: String| if rng.chance(1, 30) { "nobody".to_string() } else { v };
     // prefer pairs that already have a delegation for undelegate / redelegate / withdraw
     let existing: Vec<(usize, String)> = m.pairs.iter().filter(|(_, p)| p.lo > 0).map(|(k, _)| k.clone()).collect();
@@ -1134,7 +1146,7 @@ pub fn run_case(case: &Case, with_twin: bool, rep: &mut Report) -> Vec<Fail> {
 
 /// Constructive histories: the scenarios of DESIGN.md section 6 (D1, D6, D7) and the basic flows.
 pub fn templates() -> Vec<(String, Case)> {
-    let p = Params { apr: "0.1".into(), unbonding: 60, commissions: vec!["0.1".into(), "0".into()] };
+    let p = Params { apr: "0.1".into(), unbonding: 60, commissions: vec!["0.1".into(), "0".into()], denom: DENOM.to_string() };
     let v0 = "validator0".to_string();
     let v1 = "validator1".to_string();
     let t = DENOM.to_string();
